@@ -184,7 +184,7 @@ pub fn spec_texts(quick: bool) -> Vec<(String, YaccKind, String)> {
     for f in FEATURES {
         featsets.push(vec![f]);
     }
-    let lay = Layout { quote: Quote::Single, gap: 0, reversed: false, percent_empty: false, header: false };
+    let lay = Layout { quote: Quote::Single, gap: 0, reversed: false, percent_empty: false, header: false, reopen: false };
     let mut out = vec![];
     for b in &bases {
         for f in &featsets {
